@@ -51,5 +51,68 @@ theorem get_two_single (a : Char) (ha : a.utf8Size = 1) : Str.get [a] 0 2 = none
   rw [Str.get_zero, Str.takeBytes_cons]
   simp [ha, Str.takeBytes_nil]
 
+/-! ### the scanner in phases -/
+
+/-- the part of the scanner after the destination: promotion letter, `+`/`#`, ` e.p.` -/
+def tailScan (s : List Char) (cur : Nat) : Option Piece × Bool :=
+  let (promo, cur) := match (get1 s cur).bind promoOfLetter? with
+    | some p => (some p, cur + 1) | none => (none, cur)
+  let cur := match get1 s cur with | some '+' => cur + 1 | some '#' => cur + 1 | _ => cur
+  let ep := match Str.getFrom s cur with | some rest => rest == " e.p.".toList | none => false
+  (promo, ep)
+
+/-- the `x` test -/
+def takesAt (s : List Char) (cur : Nat) : Bool × Nat :=
+  match get1 s cur with | some 'x' => (true, cur + 1) | _ => (false, cur)
+
+/-- the destination square, or the "source" turned back into the destination -/
+def destAt (s : List Char) (srcFile srcRank : Option (Fin 8)) (cur : Nat) :
+    Option (Sq × Option (Fin 8) × Option (Fin 8) × Nat) :=
+  let fromSource : Option (Sq × Option (Fin 8) × Option (Fin 8) × Nat) :=
+    match srcRank, srcFile with
+    | some r, some f => some (mkSq r f, none, none, cur)
+    | _, _ => none
+  match Str.get s cur (cur + 2) with
+  | some t =>
+    match parseSquare t with
+    | .ok q => some (q, srcFile, srcRank, cur + 2)
+    | _ => fromSource
+  | none => fromSource
+
+def pieceAt (s : List Char) : Option (Piece × Nat) :=
+  (get1 s 0).map fun c0 => match pieceOfLetter? c0 with | some p => (p, 1) | none => (Piece.pawn, 0)
+def fileAt (s : List Char) (cur : Nat) : Option (Option (Fin 8) × Nat) :=
+  (get1 s cur).map fun c1 => match charFile? c1 with | some f => (some f, cur + 1) | none => (none, cur)
+def rankAt (s : List Char) (cur : Nat) : Option (Option (Fin 8) × Nat) :=
+  (get1 s cur).map fun c1 => match charRank? c1 with | some f => (some f, cur + 1) | none => (none, cur)
+
+theorem scan_eq (s : List Char) : scan s =
+    (pieceAt s).bind fun (piece, cur) =>
+    (fileAt s cur).bind fun (srcFile, cur) =>
+    (rankAt s cur).bind fun (srcRank, cur) =>
+    (destAt s srcFile srcRank (takesAt s cur).2).map fun (dest, srcFile, srcRank, cur') =>
+      ⟨piece, srcFile, srcRank, (takesAt s cur).1, dest, (tailScan s cur').1, (tailScan s cur').2⟩ := by
+  unfold scan pieceAt fileAt rankAt
+  dsimp only
+  cases h0 : get1 s 0 with
+  | none => rfl
+  | some c0 =>
+    dsimp only [Option.map_some, Option.bind_some]
+    cases hp : pieceOfLetter? c0 <;> dsimp only [Nat.zero_add] <;>
+    (cases h1 : get1 s _ with
+     | none => rfl
+     | some c1 =>
+      dsimp only [Option.map_some, Option.bind_some]
+      cases hf : charFile? c1 <;> dsimp only [Nat.zero_add] <;>
+      (cases h2 : get1 s _ with
+       | none => rfl
+       | some c2 =>
+        dsimp only [Option.map_some, Option.bind_some]
+        cases hr : charRank? c2 <;> dsimp only [Nat.zero_add] <;>
+        (unfold destAt takesAt tailScan; dsimp only
+         cases Str.get s _ _ with
+         | none => rfl
+         | some t => dsimp only; cases parseSquare t <;> rfl)))
+
 end San
 end Chess
